@@ -1,4 +1,4 @@
-//@unit props=C07,C01
+//@unit props=C07,C01,C08
 // Unit stack — src/vm/state/stack.rs against the EVM stack as a sequence (C07 stack manipulation),
 // the located handle (C17: errors carry the handle's instruction pointer), DUPn/SWAPn from
 // src/opcode/memory.rs composed through the real handle and stack code, and panic-freedom of all
@@ -141,7 +141,7 @@ impl DupN {
             // DUPn copies the n-th item from the top (1-based), for every n in 1..=16 and every depth
             old(vm).has_thread() && self.nv() <= old(vm).stack().len() < EVM_STACK_LIMIT() ==> r is Ok && final(vm).stack() == evm_dup(old(vm).stack(), self.nv()),      //@ob C07.stack.dupn.copies_nth_item
             old(vm).has_thread() && old(vm).stack().len() < self.nv() ==> r is Err && r->Err_0.payload is NoSuchStackFrame,                                                  //@ob C07.stack.dupn.underflow_is_error
-            old(vm).has_thread() && self.nv() <= old(vm).stack().len() && old(vm).stack().len() >= EVM_STACK_LIMIT() ==> r is Err && r->Err_0.payload is StackDepthExceeded, //@ob C07.stack.dupn.overflow_is_error
+            old(vm).has_thread() && self.nv() <= old(vm).stack().len() && old(vm).stack().len() >= EVM_STACK_LIMIT() ==> r is Err && r->Err_0.payload is StackDepthExceeded, //@ob C07.stack.dupn.overflow_is_error C08.stack.dupn.overflow_ends_path
             r is Err && old(vm).has_thread() ==> final(vm).stack() == old(vm).stack() && r->Err_0.location == old(vm).ip(),                                                  //@ob C07.stack.dupn.error_unchanged C17.stack.dupn.error_located
             !old(vm).has_thread() ==> r is Err && *final(vm) == *old(vm),
 //@end
